@@ -1,18 +1,21 @@
-import RlibModel.Lemmas.TreapHeap
+import RlibModel.Lemmas.TreapShape
 import RlibModel.Lemmas.TreapItems
 /-!
 # C16 — a treap stays heap-ordered for any operation order; its shape is canonical
 
 The proved part of C16 (model: `Model/Treap.lean`; helper lemmas: `Lemmas/TreapHeap.lean`).
 `Heap t` = along every parent-child edge the child's priority is `≥` the parent's (one
-direction over the whole tree). None of these theorems needs a lawful item, a monotone
-predicate or any assumption on the priorities: ties are allowed everywhere except in
-`shape_canonical`.
+direction over the whole tree). `HeapR t` = the invariant rlib's tie rule ("ties → the right root
+wins") actually maintains: left child `≥` parent, right child `>` parent. None of the heap theorems
+needs a lawful item, a monotone predicate or any assumption on the priorities, and **ties are allowed
+everywhere** — rlib's 32-bit priorities do repeat in big trees (about 116 repeated values among 10^6
+draws), so the shape theorems must not assume distinctness: `shape_canonical_ties`, `history_shape`.
 
 **Not a theorem** (measured by the correspondence harness, see `checks/C16.py`): that the
 priorities rlib's generator draws are random enough for `height ≤ 5·log2(n+1)+20`.
-`shape_canonical`/`height_canonical` say what that measurement is about: the height after *any*
-history is the height of the Cartesian tree of the priorities in in-order position.
+`history_shape` says what that measurement is about: the shape (hence the height) after *any*
+history is the Cartesian tree (`cartShape`; among equal minima the last one is the root, as `merge` breaks
+ties) of the priorities of the sequence's elements in sequence order.
 -/
 namespace Rlib.C16
 open Rlib.Treap
@@ -60,10 +63,64 @@ theorem isHeap_spec (t : Tree T) : isHeap t = true ↔ Heap t := isHeap_iff t
 
 theorem nodupB_spec (l : List Nat) : nodupB l = true ↔ l.Nodup := nodupB_iff l
 
-/-- **The shape is canonical.** A heap-ordered tree whose priorities are pairwise distinct is
-    the Cartesian tree of its in-order priority sequence. -/
+/-- `merge`, `split_at`, `split_by` (any predicate) keep the tie-tolerant invariant. -/
+theorem heapR_merge (a b : Tree T) (ha : HeapR a) (hb : HeapR b) : HeapR (merge I a b) :=
+  (merge_heapR I a b ha hb).1
+
+theorem heapR_splitAt (t : Tree T) (k : Nat) (h : HeapR t) : HeapR (splitAt I t k).1 ∧ HeapR (splitAt I t k).2 :=
+  ⟨(splitAt_heapR I t k h).1, (splitAt_heapR I t k h).2.1⟩
+
+theorem heapR_splitBy (pred : T → Bool) (t : Tree T) (h : HeapR t) :
+    HeapR (splitBy I pred t).1 ∧ HeapR (splitBy I pred t).2 :=
+  ⟨(splitBy_heapR I pred t h).1, (splitBy_heapR I pred t h).2.1⟩
+
+/-- After any history every live treap satisfies `HeapR` (hence `Heap`): no hypothesis at all. -/
+theorem heapR_history (ops : List (Op E M V)) (r : List (Tree T) × List (Obs E G))
+    (h : runM I [] ops = some r) : ∀ t ∈ r.1, HeapR t :=
+  run_inv I (heapR_inv I) ops [] (fun _ ht => by cases ht) r h
+
+/-- **The shape is canonical, ties included.** `HeapR` alone fixes the shape: the tree is the
+    Cartesian tree of its in-order priority sequence (`cartShape`: among equal minima the *last*
+    one is the root... exactly `merge`'s rule), so its height is a function of that sequence. -/
+theorem shape_canonical_ties (t : Tree T) (h : HeapR t) :
+    skel t = cartShape (prios t) ∧ height t = height (cartShape (prios t)) := by
+  have e := skel_eq_cartShape_of_heapR t h
+  exact ⟨e, by rw [← height_skel t, e]⟩
+
+/-- the special case of pairwise distinct priorities, where plain heap order is enough -/
 theorem shape_canonical (t : Tree T) (h : Heap t) (hd : (prios t).Nodup) : skel t = cartShape (prios t) :=
-  skel_eq_cartShape t h hd
+  skel_eq_cartShape_of_heapR t (HeapR_of_heap_nodup t h hd)
+
+/-- **Shape after any history (trees).** Whatever the operations, predicates and priorities
+    (repeated or not): every live treap is the Cartesian tree of its in-order priorities. -/
+theorem history_shape_trees (ops : List (Op E M V)) (r : List (Tree T) × List (Obs E G))
+    (h : runM I [] ops = some r) : ∀ t ∈ r.1, skel t = cartShape (prios t) ∧ height t = height (cartShape (prios t)) :=
+  fun t ht => shape_canonical_ties t (heapR_history I ops r h t ht)
+
+/-- **Shape after any history (lists).** For a lawful item: the in-order priority lists of the live
+    treaps are `runP` of the operations and of the sizes they reported — plain list operations
+    (`++`, `take`/`drop`, insert at `k`, `eraseIdx`; walks and tags change nothing; `split_by` cuts
+    where its reported left size says, for **every** predicate) — and the shapes of the live treaps
+    are the Cartesian trees of those lists. The history can only choose *positions*. -/
+theorem history_shape (hI : Lawful I) (ops : List (Op E M V)) (r : List (Tree T) × List (Obs E G))
+    (h : runM I [] ops = some r) :
+    ∃ ps, runP [] ops r.2 = some ps ∧ r.1.map prios = ps ∧ r.1.map skel = ps.map cartShape := by
+  have hp := run_prios I hI ops [] (fun _ ht => by cases ht) r h
+  refine ⟨r.1.map prios, hp, rfl, ?_⟩
+  rw [List.map_map]
+  apply List.map_congr_left
+  intro t ht
+  exact (history_shape_trees I ops r h t ht).1
+
+/-- priorities through the remaining operations: `split_by` with **any** predicate keeps them in
+    order across the two parts, `remove_at` erases position `k`, walks and root tags keep them -/
+theorem prios_other_ops (hI : Lawful I) (pred : T → Bool) (m : M) (t : Tree T) (k : Nat) (h : WFt I t) :
+    prios (splitBy I pred t).1 ++ prios (splitBy I pred t).2 = prios t ∧
+    prios (removeAt I t k).2 = (prios t).eraseIdx k ∧
+    prios (first I t).2 = prios t ∧ prios (last I t).2 = prios t ∧ prios (collect I t).2 = prios t ∧
+    prios (tagRoot I m t) = prios t :=
+  ⟨prios_splitBy I pred t, prios_removeAt I hI t k h, prios_of_skel_eq (skel_first I t),
+    prios_of_skel_eq (skel_last I t), prios_of_skel_eq (skel_collect I t), prios_of_skel_eq (skel_tagRoot I m t)⟩
 
 /-- Hence two treaps holding the same priorities in the same in-order positions — whatever
     histories produced them — have the same shape, in particular the same height: adversarial
@@ -95,7 +152,12 @@ example : cartShape [5, 2, 9, 7] =
     .node () 2 (.node () 5 .nil .nil) (.node () 7 (.node () 9 .nil .nil) .nil) := by decide
 example : Heap (cartShape [5, 2, 9, 7]) ∧ (prios (cartShape [5, 2, 9, 7])).Nodup := by
   refine ⟨(isHeap_spec _).1 (by decide), (nodupB_spec _).1 (by decide)⟩
--- with ties the shape is *not* determined by heap order and in-order priorities
+-- ties: `HeapR` holds for what `merge` builds, and the canonical shape of 1 1 is the right-rooted one
+example : HeapR (merge sumAdd (single (sumAdd.new 3) 1) (single (sumAdd.new 8) 1)) :=
+  heapR_merge _ _ _ (HeapR_single _ _) (HeapR_single _ _)
+example : cartShape [1, 1] = .node () 1 (.node () 1 .nil .nil) .nil := by decide
+example : cartShape [2, 1, 1, 3] = .node () 1 (.node () 1 (.node () 2 .nil .nil) .nil) (.node () 3 .nil .nil) := by decide
+-- with ties plain heap order does *not* determine the shape (that is why `HeapR` is needed)
 example : ∃ a b : Tree Unit, Heap a ∧ Heap b ∧ prios a = prios b ∧ a ≠ b :=
   ⟨.node () 1 .nil (.node () 1 .nil .nil), .node () 1 (.node () 1 .nil .nil) .nil,
     (isHeap_spec _).1 (by decide), (isHeap_spec _).1 (by decide), by decide, by decide⟩
